@@ -231,6 +231,26 @@ def make_faults(ctx, rng, thorough):
         except Exception:
             pass
         yield Fault(f"bitflip-gzip@bit{bit}", {"in1.fq.gz": bytes(b)}, None, True, None, detail="gzip-bitflip")
+    # (c-) the same for the larger files: a flipped bit in the body usually surfaces only as a checksum failure at the end of the
+    # stream, i.e. while chunks are being read and the workers are already running; plus the stored CRC itself
+    for kind, ext in (("gz", ".gz"), ("bz2", ".bz2"), ("xz", ".xz")):
+        blob = fastx.compress(tb.encode(), kind) if kind != "gz" else gzip.compress(tb.encode(), 1, mtime=0)
+        bits = [rng.randrange(12 * 8, (len(blob) - 12) * 8) for _ in range(2 if not thorough else 12)]
+        if kind == "gz":
+            bits += [(len(blob) - 8) * 8 + rng.randrange(32) for _ in range(1 if not thorough else 4)]
+        for bit in bits:
+            b = bytearray(blob)
+            b[bit // 8] ^= 1 << (bit % 8)
+            try:
+                if fastx.decompress_bytes(bytes(b), kind) == tb.encode():
+                    continue
+            except Exception:
+                pass
+            yield Fault(f"bitflip-big-{kind}@bit{bit}", {"in1.fq" + ext: bytes(b)}, None, True, None, detail=f"{kind}-bitflip, 900+ records")
+    # paired: the damaged stream is R2
+    b = bytearray(gzip.compress(fastx.format_fastq([(nm.replace(" c", " d"), sq, ql) for nm, sq, ql in big]).encode(), 1, mtime=0))
+    b[len(b) - 8 + rng.randrange(4)] ^= 1 << rng.randrange(8)
+    yield Fault("bitflip-big-gz-R2@crc", {"in1.fq": tb.encode(), "in2.fq.gz": bytes(b)}, "two", True, None, detail="paired, CRC of the R2 gzip stream damaged")
     # (c+) a corrupted record early in a multi-chunk file, with outputs that go through an external compressor
     for idx in (5, len(big) // 2):
         for kind in ("qual_short", "no_plus"):
